@@ -1,5 +1,6 @@
 """Rules about the stroker and the dasher (shared by C04, C09, C07)."""
 from util import *
+from fractions import Fraction
 from terms import fmt, subterms, Deps
 import shared
 import dt
@@ -708,6 +709,10 @@ def r09_1b(ctx):
         if v in m.arms:
             work |= arm_region(cfg, m.bb, m.arms[v])
     stop = cfg.ipdom(m.bb)
+    cl_close = chop_loops(ctx, b, m).get('Close')
+    cregion = arm_region(cfg, m.bb, m.arms['Close']) if 'Close' in m.arms else set()
+    if cl_close is None:
+        ctx.fail(R, key + '|Close chop loop', b.loc(), 'cannot find the chopping loop of the Close arm (fail closed)')
     def const_sig(t):
         t = strip_all(t)
         if t[0] == 'const':
@@ -741,6 +746,18 @@ def r09_1b(ctx):
         ok, _p = cfg.must_pass_through(m.arms['MoveTo'], blocks, exits=[stop] if stop is not None else None)
         ctx.check(ok and bool(blocks), R, key + '|MoveTo re-initialises ' + nm, b.loc(), '`%s` reset to its initial value %s at every MoveTo' % (nm, sig),
                   'per-subpath state `%s` (initialised to %s before the op loop and changed while dashing a subpath) is not reset on every path of the MoveTo arm: the next subpath starts with the previous subpath\'s value (e.g. a later closed subpath inside its first dash is not closed)' % (nm, sig))
+        # what follows a Close continues from the subpath's start as a new subpath (the arm restarts the pattern, R09.1):
+        # the same state must be re-initialised once the closing segment has been chopped
+        if cl_close is not None:
+            blocks = set()
+            for d in ds:
+                if d.bb in cregion and d.kind in ('assign', 'call') and not d.partial and cfg.dominates(cl_close[0], d.bb) and d.bb not in cl_close[1]:
+                    t = an.def_term(d) if d.kind == 'assign' else an.call_term(d.bb)
+                    if const_sig(t) == sig:
+                        blocks.add(d.bb)
+            ok, _p = cfg.must_pass_through(cl_close[0], blocks, exits=[stop] if stop is not None else None)
+            ctx.check(ok and bool(blocks), R, key + '|Close re-initialises ' + nm, b.loc(), '`%s` reset to its initial value %s after the closing segment' % (nm, sig),
+                      'per-subpath state `%s` (initialised to %s before the op loop, reset at every MoveTo) is not reset on every path of the Close arm after the closing segment was chopped, although the arm restarts the dash pattern: segments that follow close() (they continue from the subpath\'s start) are dashed with the closed subpath\'s value, e.g. their first dash is appended to the closed outline instead of starting at the start point' % (nm, sig))
     ctx.floor(R, 'per-subpath state variables of dash_path', n, 3)
 
 
@@ -820,3 +837,191 @@ def r04_6(ctx):
     want = (('flip', 'N2'), ('flip', 'N1'))
     ctx.check(bad is None and got == want, R, key + '|interior normalisation', b.loc(), 'interior angle: (s1, s2) := (flip(s2), flip(s1))',
               'for an interior angle join_line leaves (s1_normal, s2_normal) = %s%s; it must be (flip(s2), flip(s1)): flipping without exchanging (or the reverse) builds the join with the opposite orientation to the segments, so under the NonZero fill it cancels against overlapping pieces and leaves holes on right-hand turns' % (got, (' (%s)' % bad) if bad else ''))
+
+
+def r09_6(ctx):
+    """after the closing segment the Close arm re-seats both cursors at the subpath's start: cur_pt := Some(start) and the
+    output builder gets move_to(start) as the arm's last emission (what follows close() continues from the start point)"""
+    R = 'R09.6'
+    b = ctx.body(DASH, R)
+    an = ctx.an(b)
+    cfg = an.cfg
+    key = 'dash::dash_path'
+    m = op_match(ctx, b, R)
+    if m is None or 'Close' not in m.arms:
+        return
+    cl = chop_loops(ctx, b, m).get('Close')
+    if not ctx.check(cl is not None, R, key + '|Close chop loop', b.loc(), 'chopping loop of the Close arm found', 'cannot find the chopping loop of the Close arm (fail closed)'):
+        return
+    h, lb = cl
+    region = arm_region(cfg, m.bb, m.arms['Close'])
+    stop = cfg.ipdom(m.bb)
+    exits = [stop] if stop is not None else None
+    sp = named_local(b, 'start_point')
+    cp = named_local(b, 'cur_pt')
+    if not ctx.check(sp is not None and cp is not None, R, key + '|cursors', b.loc(), 'cur_pt / start_point found', 'cannot find the locals cur_pt / start_point (fail closed)'):
+        return
+    def is_start(t):
+        t = strip_all(t)
+        return t[0] == 'field' and t[2] == '0' and t[4] == 'Some' and strip_all(t[1])[0] in ('phi', 'mem', 'rec') and strip_all(t[1])[1] == sp
+    # (1) the input cursor
+    seat = set()
+    for d in an.defs_of.get(cp, []):
+        if d.bb in region and d.bb not in lb and d.kind == 'assign' and not d.partial and cfg.dominates(h, d.bb):
+            t = an.def_term(d)
+            if t[0] == 'agg' and t[3] == 'Some' and t[4] and is_start(t[4][0][1]):
+                seat.add(d.bb)
+    ok, _p = cfg.must_pass_through(h, seat, exits=exits)
+    ctx.check(ok and bool(seat), R, key + '|Close: cur_pt := start', b.loc(), 'cur_pt = Some(start_point) on every path after the closing segment',
+              'after the closing segment the Close arm does not set cur_pt to the subpath\'s start on every path: a segment following close() is measured from the wrong point')
+    # (2) the output cursor
+    emits = [(bi, d, ct) for bi, d, ct in calls_in(ctx, b, region) if d in (PB + 'move_to', PB + 'line_to', PB + 'close')]
+    reseat = set()
+    for bi, d, ct in emits:
+        if d == PB + 'move_to' and bi not in lb and cfg.dominates(h, bi):
+            a1, a2 = strip_all(ct[2][1]), strip_all(ct[2][2])
+            if a1[0] == 'field' and a1[2] == 'x' and is_start(a1[1]) and a2[0] == 'field' and a2[2] == 'y' and is_start(a2[1]):
+                reseat.add(bi)
+    ok, _p = cfg.must_pass_through(h, reseat, exits=exits)
+    if not ctx.check(ok and bool(reseat), R, key + '|Close: builder re-seated at start', b.loc(), 'dashed.move_to(start_point) on every path after the closing segment',
+                     'after the closing segment the Close arm does not move the output builder to the subpath\'s start on every path: the dashes of a segment that follows close() are connected by a spurious line to wherever the closing dash ended (e.g. the end of the re-joined first dash) and the first dash of the continuation is lost'):
+        return
+    inner = cfg.reachable_from(h, removed=[stop] if stop is not None else [])
+    later = sorted(bi for bi, d, ct in emits if bi not in reseat and any(bi in cfg.reachable_from(r, removed=[stop] if stop is not None else []) and bi != r for r in reseat))
+    ctx.check(not later, R, key + '|Close: start emitted last', call_line(b, sorted(reseat)[0]), 'nothing is emitted after move_to(start_point) in the Close arm',
+              'the Close arm emits further output after re-seating the builder at the subpath\'s start (blocks %s): the builder is left elsewhere' % later)
+
+
+# ------------------------------------------------------------------ R04.7 orientation of the straight pieces
+def emitted_polygons(ctx, b, region=None):
+    """closed figures made of move_to/line_to.../close calls only, in dominance order: [[(bb, x term, y term)]]"""
+    an = ctx.an(b)
+    cfg = an.cfg
+    calls = [(bi, d, ct) for bi, d, ct in calls_in(ctx, b, region) if d in (PB + 'move_to', PB + 'line_to', PB + 'close')]
+    calls.sort(key=lambda c: sum(1 for o in calls if o[0] != c[0] and cfg.dominates(o[0], c[0])))
+    groups, cur = [], None
+    for bi, d, ct in calls:
+        if d == PB + 'move_to':
+            cur = [(bi, ct[2][1], ct[2][2])]
+        elif d == PB + 'line_to' and cur is not None:
+            if not cfg.dominates(cur[-1][0], bi):
+                cur = None
+                continue
+            cur.append((bi, ct[2][1], ct[2][2]))
+        elif d == PB + 'close' and cur is not None:
+            if cfg.dominates(cur[-1][0], bi) and len(cur) >= 3:
+                groups.append(cur)
+            cur = None
+    return groups
+
+
+def r04_7(ctx):
+    """every straight piece the stroker emits (segment rectangles, square caps, bevels) is wound the same way:
+    the pieces are filled together under the NonZero rule, so a piece wound the other way cancels wherever it overlaps another"""
+    import geomalg
+    from geomalg import VA, shoelace, sign_definite, psubst
+    R = 'R04.7'
+    va = VA(ctx)
+    def positive(leaf):
+        if leaf[0] == 'inv':
+            return is_call(leaf[1], '::hypot')
+        if leaf[0] == 'field' and leaf[2] == 'width':
+            return True          # stroke_to_path returns early unless style.width > 0 (R04.4)
+        return False
+    def xy(base):
+        base = nosite(strip_all(base))
+        return ('field', base, 'x', 'P', None), ('field', base, 'y', 'P', None)
+    signs = {}
+    # --- segment rectangles in stroke_to_path
+    b = ctx.body(ST + 'stroke_to_path', R)
+    an = ctx.an(b)
+    m = op_match(ctx, b, R)
+    if m is None:
+        return
+    for v in ('LineTo', 'Close'):
+        key = 'stroke::stroke_to_path|%s rectangle' % v
+        if v not in m.arms:
+            ctx.fail(R, key, b.loc(), 'no %s arm' % v)
+            continue
+        region = arm_region(an.cfg, m.bb, m.arms[v])
+        polys = emitted_polygons(ctx, b, region)
+        cn = [ct for bi, d, ct in calls_in(ctx, b, region) if d == ST + 'compute_normal']
+        if not ctx.check(len(polys) == 1 and len(cn) == 1, R, key + '|found', b.loc(), 'one closed polygon and one compute_normal call',
+                         'expected one closed move_to/line_to/close figure and one compute_normal call in the %s arm, found %d and %d (fail closed)' % (v, len(polys), len(cn))):
+            continue
+        A, B = cn[0][2][0], cn[0][2][1]
+        P = shoelace([(va.sp(x), va.sp(y)) for bi, x, y in polys[0]])
+        (ax, ay), (bx, by) = xy(A), xy(B)
+        shift = {ax: Poly(), ay: Poly(), bx: Poly.leaf(bx) - Poly.leaf(ax), by: Poly.leaf(by) - Poly.leaf(ay)}
+        inv = psubst(P, shift) == P
+        P0 = psubst(P, {ax: Poly(), ay: Poly()})
+        sg = sign_definite(P0, positive)
+        loc = call_line(b, polys[0][0][0])
+        if ctx.check(inv and sg in (1, -1), R, key + '|orientation decidable', loc, 'signed area = %s (translation invariant, one sign)' % P0.show(b),
+                     'cannot decide the orientation of the %s rectangle: its signed area %s is not a translation-invariant polynomial of one sign in the segment vector (fail closed)' % (v, P0.show(b)[:300])):
+            signs[v + ' rectangle'] = (sg, loc)
+    # --- square cap
+    cb = ctx.body(ST + 'cap_line', R)
+    can = ctx.an(cb)
+    ms = matches(ctx, cb, 'LineCap')
+    key = 'stroke::cap_line|Square'
+    if len(ms) == 1 and 'Square' in ms[0].arms:
+        region = arm_region(can.cfg, ms[0].bb, ms[0].arms['Square'])
+        polys = emitted_polygons(ctx, cb, region)
+        if ctx.check(len(polys) == 1, R, key + '|found', cb.loc(), 'one closed polygon', 'expected one closed move_to/line_to/close figure in the Square arm, found %d (fail closed)' % len(polys)):
+            P = shoelace([(va.sp(x), va.sp(y)) for bi, x, y in polys[0]])
+            px, py = xy(('param', 3))
+            inv = px not in P.leaves() and py not in P.leaves()
+            sg = sign_definite(P, positive)
+            loc = call_line(cb, polys[0][0][0])
+            if ctx.check(inv and sg in (1, -1), R, key + '|orientation decidable', loc, 'signed area = %s' % P.show(cb),
+                         'cannot decide the orientation of the square cap: its signed area %s is not a position-independent polynomial of one sign (fail closed)' % P.show(cb)[:300]):
+                # the cap is called with the segment's own normal at the end and the flipped normal at the beginning: in both cases
+                # (normal.y, -normal.x) points away from the stroke, i.e. the cap's `normal` relates to its forward direction as a segment's normal does
+                signs['square cap'] = (sg, loc)
+    else:
+        ctx.fail(R, key + '|found', cb.loc(), 'cannot find the Square arm of cap_line (fail closed)')
+    # --- bevel, relative to the interior-angle test that join_line normalises with (R04.6)
+    bb_ = ctx.body(ST + 'bevel', R)
+    key = 'stroke::bevel'
+    polys = emitted_polygons(ctx, bb_)
+    ib = ctx.body(ST + 'is_interior_angle', R)
+    ian = ctx.an(ib)
+    tests = []
+    for si, t in ib.terminators('switch'):
+        if si in ian.cfg.reach and t.get('ty') == 'bool':
+            c = ian.term_at(si, len(ib.blocks[si]['st']), t['o'])
+            if c[0] == 'bin' and c[1] in ('Gt', 'Lt') and const_val(c[3]) == 0:
+                tests.append((c[1], c[2]))
+    if ctx.check(len(polys) == 1 and len(tests) == 1, R, key + '|found', bb_.loc(), 'bevel polygon and the cross-product test of is_interior_angle',
+                 'expected one closed figure in bevel() and one `<cross product> > 0` test in is_interior_angle, found %d and %d (fail closed)' % (len(polys), len(tests))):
+        P = shoelace([(va.sp(x), va.sp(y)) for bi, x, y in polys[0]])
+        op, tt = tests[0]
+        T = va.sp(geomalg.tsubst(nosite(tt), {1: ('param', 4), 2: ('param', 5)}))
+        if op == 'Lt':
+            T = -T
+        (s1x, s1y), (s2x, s2y) = xy(('param', 4)), xy(('param', 5))
+        anti = psubst(T, {s1x: -Poly.leaf(s2x), s1y: -Poly.leaf(s2y), s2x: -Poly.leaf(s1x), s2y: -Poly.leaf(s1y)}) == -T
+        fl = va.vec(('call', ST + 'flip', (('param', 1),), 0))
+        vx, vy = xy(('param', 1))
+        flip_neg = fl[0] == -Poly.leaf(vx) and fl[1] == -Poly.leaf(vy)
+        ctx.check(anti and flip_neg, R, 'stroke::is_interior_angle|antisymmetric', ib.loc(), 'interior(a, b) tests an antisymmetric form and flip negates',
+                  'is_interior_angle does not test an antisymmetric form T(a, b) = -T(-b, -a), or flip() is not the negation: after join_line\'s normalisation (s1, s2) := (flip(s2), flip(s1)) the join is no longer known to be on the outer side')
+        # P == kappa * O^2 * T with O the half width
+        wl = [l for l in P.leaves() if l[0] == 'field' and l[2] == 'width']
+        kappa = None
+        if len(wl) == 1:
+            W = Poly.leaf(wl[0])
+            for k in (Fraction(1, 4), Fraction(-1, 4), Fraction(1), Fraction(-1), Fraction(1, 2), Fraction(-1, 2)):
+                if P == Poly.const(k) * W * W * T:
+                    kappa = k
+        loc = call_line(bb_, polys[0][0][0])
+        if ctx.check(kappa is not None, R, key + '|orientation decidable', loc, 'signed area = %s x width^2 x T(s1, s2)' % kappa,
+                     'cannot decide the orientation of the bevel: its signed area %s is not a multiple of width^2 x the form tested by is_interior_angle (fail closed)' % P.show(bb_)[:300]):
+            # join_line guarantees T(s1, s2) <= 0 when it calls bevel
+            signs['bevel'] = (-1 if kappa > 0 else 1, loc)
+    want = signs.get('LineTo rectangle', (None, None))[0]
+    for name, (sg, loc) in sorted(signs.items()):
+        ctx.check(sg == want, R, 'stroke|%s wound like the segments' % name, loc, '%s has the orientation of the segment rectangles' % name,
+                  'the %s is wound the opposite way to the segment rectangles (signed area %s vs %s): the stroke outline is filled as one NonZero path, so wherever this piece overlaps another one the windings cancel and the stroke has a hole (e.g. a square cap over a neighbouring dash, a bevel over its segments)' % (name, '> 0' if sg > 0 else '< 0', '> 0' if want and want > 0 else '< 0'))
+    ctx.floor(R, 'straight pieces with a decided orientation', len(signs), 4)
